@@ -296,7 +296,10 @@ fn model(bytes: &[u8], answers: &[Ans]) -> Result<ModelOut, Violation> {
             }
             _ => {
                 out.expected.push(Expected::Error { unsupported_version: false });
-                if len == 8 { pos += 8; continue; }
+                // The server answers a non-query PDU after its 8-octet header.
+                // If the unit IS 8 octets long - its length field says 8, or
+                // it is the last thing the client sent - the stream stays framed.
+                if len == 8 || bytes.len() - pos == 8 { pos += 8; continue; }
                 out.desync = true;
                 return Ok(out);
             }
